@@ -226,7 +226,7 @@ fn stages(tier: Tier) -> Vec<Stage> {
     }
     // n = 3: every structure multiset, every order, stance patterns
     let s3 = structure_multisets(3, quick, 3);
-    let conf3: Vec<Vec<u8>> = tier.pick(vec![vec![3, 6, 9]], vec![vec![3, 6, 9], vec![0, 9, 3]]);
+    let conf3: Vec<Vec<u8>> = vec![vec![3, 6, 9]];
     let plain3: Vec<Vec<Label>> = if quick {
         // one side; one opposing or one uncertain assertion in every position (it must not bridge the other two)
         vec![
@@ -255,6 +255,19 @@ fn stages(tier: Tier) -> Vec<Stage> {
         queries: q1.clone(),
     });
     let s3f = structure_multisets(3, true, 3);
+    if !quick {
+        // a second confidence pattern (unstated in front, strongest in the middle) on the renaming classes
+        v.push(Stage {
+            name: format!(
+                "n=3 plain: {} structure multisets{} x 27 stance patterns x confidence pattern (unstated,.9,.3)",
+                s3f.len(),
+                cls(true)
+            ),
+            n: 3,
+            groups: pattern_family(false, &s3f, &words(&[T_S, T_R, T_U], 3), &[vec![0, 9, 3]], true),
+            queries: q1.clone(),
+        });
+    }
     let func3: Vec<Vec<Label>> = if quick {
         // opposition mixes rejects and rival supports; plus one supporter between rival supporters
         vec![
@@ -282,8 +295,7 @@ fn stages(tier: Tier) -> Vec<Stage> {
     // n = 4: one side (that is where components merge), every order
     let s4 = structure_multisets(4, quick, if quick { 2 } else { 3 });
     let conf4 = vec![vec![3u8, 6, 9, 0]];
-    let plain4: Vec<Vec<Label>> = tier.pick(
-        vec![vec![T_S; 4]],
+    let plain4: Vec<Vec<Label>> = vec![vec![T_S; 4]];
         vec![vec![T_S; 4], vec![T_S, T_S, T_R, T_S]],
     );
     v.push(Stage {
@@ -304,6 +316,17 @@ fn stages(tier: Tier) -> Vec<Stage> {
     });
     let s4f = structure_multisets(4, true, 3);
     if !quick {
+        // one opposing assertion among three supporters (it must not bridge), on the renaming classes
+        v.push(Stage {
+            name: format!(
+                "n=4 plain: {} structure multisets{} x stance pattern (S,S,R,S)",
+                s4f.len(),
+                cls(true)
+            ),
+            n: 4,
+            groups: pattern_family(false, &s4f, &[vec![T_S, T_S, T_R, T_S]], &conf4, true),
+            queries: q1.clone(),
+        });
         v.push(Stage {
         name: format!(
             "n=4 functional: {} structure multisets{}, opposition = 2 rejects + 2 rival supports",
